@@ -324,6 +324,30 @@ func C07(c *fw.Ctx) {
 			}
 		}
 	}
+	// a runtime error on, or after, a very long line (a string literal, a comment, an array literal of
+	// every length 2^k-1, 2^k, 2^k+1 for k = 12..17), preceded by an ordinary line
+	{
+		P, V := model.KwPrint, model.KwVar
+		for k := 12; k <= 17; k++ {
+			for d := -1; d <= 1; d++ {
+				n := 1<<uint(k) + d
+				longs := []string{
+					V + " s = \"" + strings.Repeat("x", n) + "\";",
+					V + " s = 1; //" + strings.Repeat("c", n),
+					V + " s = [" + strings.Repeat("1, ", n/3) + "1];",
+					V + " s = \"" + strings.Repeat("\u0995", n/3) + "\"; " + P + " 1 / 0;",
+				}
+				for li, long := range longs {
+					for _, fault := range []string{P + " 1 / 0;", P + " [1][5];", "zz;", P + " s.k;"} {
+						if !c.Mine() {
+							continue
+						}
+						sane(c, P+" \"first\";\n"+long+"\n"+fault+"\n"+P+" \"never\";\n", "", fmt.Sprintf("fault-after-long-line|form%d", li), false)
+					}
+				}
+			}
+		}
+	}
 	// forms the grammar derives although a careful author would not write them: repeated property names
 	// in a literal (every arrangement of up to four entries over two names), repeated parameter names, a
 	// parameter named like its function, a function declared twice, a variable named like a function --
